@@ -198,7 +198,10 @@ struct StratAcc
       {
         char c = strat[i];
         if (c == 'd')
-          r += *it;
+        {
+          if (it != last)
+            r += *it;
+        }
         else if (c == 'i')
         {
           if (it != last)
@@ -211,8 +214,11 @@ struct StratAcc
         }
         else if (c == 'c')
         {
-          It cp = it; // a copy carries the buffered result and the invoked flag
-          r += *cp;
+          if (it != last)
+          {
+            It cp = it; // a copy carries the buffered result and the invoked flag
+            r += *cp;
+          }
         }
       }
     }
@@ -252,6 +258,7 @@ struct SigObj
   Flavour fl;
   void* p; // one of the six types
   bool everFwd = false;
+  int lvl = 0; // forwarding level (recursion guard of the op language)
 };
 
 struct SlotObj
@@ -260,6 +267,7 @@ struct SlotObj
   SlotI* si = nullptr;
   SlotV* sv = nullptr;
   int incall = 0;
+  int taint = -1; // highest level of a signal this variable may forward to
   sigc::slot_base* base() { return isVoid ? static_cast<sigc::slot_base*>(sv) : static_cast<sigc::slot_base*>(si); }
 };
 
@@ -297,6 +305,8 @@ struct Interp
   std::map<int, long> live; // live F copies per fid
   int depth = 0;
   int maxdepth = 6;
+  long steps = 0;      // operations executed so far
+  long maxsteps = 1500; // emit/callS refuse (`budget`) beyond this many operations
   long mark = 0;
   std::string out;
   bool yield = false;
@@ -459,6 +469,22 @@ struct Interp
     return 2;
   }
 
+  // level of the signal a spec forwards to (directly or through a nested slot variable), else -1
+  int spec_taint(const std::string& spec)
+  {
+    if (spec.rfind("fwd:", 0) == 0)
+    {
+      SigObj* g = get(G, idx(spec.substr(4)));
+      return g ? g->lvl : -1;
+    }
+    if (spec.rfind("nest:", 0) == 0)
+    {
+      SlotObj* v = get(S, idx(spec.substr(5)));
+      return v ? v->taint : -1;
+    }
+    return -1;
+  }
+
   static const char* rc_name(int rc) { return rc == 0 ? "ok" : rc == 1 ? "dead" : "badtype"; }
 
   static bool parse_flavour(const std::string& s, Flavour& f)
@@ -595,6 +621,7 @@ struct Interp
         return "badtype";
       auto s = new SlotObj;
       s->isVoid = (w[2] == "V");
+      s->taint = spec_taint(w[3]);
       int rc;
       if (s->isVoid)
       {
@@ -646,6 +673,7 @@ struct Interp
         return "busy";
       auto s = new SlotObj;
       s->isVoid = src->isVoid;
+      s->taint = src->taint;
       if (s->isVoid)
         s->sv = (op == "cpS") ? new SlotV(*src->sv) : new SlotV(std::move(*src->sv));
       else
@@ -663,6 +691,8 @@ struct Interp
         return "badtype";
       if (dst->incall || (op == "masgS" && src->incall))
         return "busy";
+      if (dst->taint < src->taint)
+        dst->taint = src->taint;
       if (dst->isVoid)
       {
         if (op == "asgS")
@@ -686,6 +716,7 @@ struct Interp
         return "dead";
       if (dst->incall)
         return "busy";
+      int st = spec_taint(w[2]);
       int rc;
       if (dst->isVoid)
       {
@@ -701,6 +732,8 @@ struct Interp
         if (!rc)
           *dst->si = tmp;
       }
+      if (!rc && dst->taint < st)
+        dst->taint = st;
       return rc_name(rc);
     }
     if (op == "delS" && N(1))
@@ -756,6 +789,8 @@ struct Interp
         return "dead";
       if (depth >= maxdepth)
         return "toodeep";
+      if (steps > maxsteps)
+        return "budget";
       int a = std::atoi(w[2].c_str());
       struct Guard
       {
@@ -782,6 +817,7 @@ struct Interp
       if (get(G, i))
         return "exists";
       G[i] = new_sig(fl);
+      G[i]->lvl = i;
       return "ok";
     }
     if ((op == "cpG" || op == "mvG") && N(2))
@@ -794,6 +830,7 @@ struct Interp
         return "exists";
       auto g = new SigObj;
       g->fl = src->fl;
+      g->lvl = src->lvl;
       bool cp = (op == "cpG");
       g->p = with_sig(*src, [cp](auto& s) -> void* {
         using Ty = std::remove_reference_t<decltype(s)>;
@@ -810,6 +847,8 @@ struct Interp
         return "dead";
       if (dst->fl != src->fl)
         return "badtype";
+      if (dst->lvl != src->lvl)
+        return "badlevel";
       bool cp = (op == "asgG");
       with_sig(*dst, [cp, src](auto& d) {
         using Ty = std::remove_reference_t<decltype(d)>;
@@ -843,6 +882,8 @@ struct Interp
         return "dead";
       if (fl_void(g->fl) != s->isVoid)
         return "badtype";
+      if (s->taint >= g->lvl)
+        return "badorder";
       bool first = (op == "connf" || op == "connfmv");
       bool mv = (op == "connmv" || op == "connfmv");
       if (mv && s->incall)
@@ -866,11 +907,14 @@ struct Interp
         return "dead";
       bool first = (op == "connffn");
       int rc = 0;
+      int st = spec_taint(w[3]);
       sigc::connection c;
       if (fl_void(g->fl))
       {
         SlotV tmp;
         rc = make_slot<void>(w[3], tmp);
+        if (!rc && st >= g->lvl)
+          return "badorder";
         if (!rc)
           c = with_sig(*g, [&](auto& sig) -> sigc::connection {
             using Sig = std::remove_reference_t<decltype(sig)>;
@@ -884,6 +928,8 @@ struct Interp
       {
         SlotI tmp;
         rc = make_slot<int>(w[3], tmp);
+        if (!rc && st >= g->lvl)
+          return "badorder";
         if (!rc)
           c = with_sig(*g, [&](auto& sig) -> sigc::connection {
             using Sig = std::remove_reference_t<decltype(sig)>;
@@ -905,6 +951,8 @@ struct Interp
         return "dead";
       if (depth >= maxdepth)
         return "toodeep";
+      if (steps > maxsteps)
+        return "budget";
       int a = std::atoi(w[2].c_str());
       std::string strat = N(3) ? w[3] : "sum";
       auto doit = [&]() -> std::string {
@@ -1207,6 +1255,7 @@ struct Interp
     }
     if (w.empty())
       return;
+    ++steps;
     std::string res;
     try
     {
@@ -1303,6 +1352,11 @@ struct Interp
       if (l.rfind("maxdepth ", 0) == 0)
       {
         maxdepth = std::atoi(l.c_str() + 9);
+        continue;
+      }
+      if (l.rfind("maxsteps ", 0) == 0)
+      {
+        maxsteps = std::atol(l.c_str() + 9);
         continue;
       }
       if (cur >= 0)
